@@ -14,12 +14,14 @@ from vlib import sched
 from vlib.common import REPO
 
 SIGINT, SIGSTOP, SIGTSTP = 2, 19, 20
+WINDOW = 1          # "a second interrupt within one second", "^Z right after ^C" (the property text, not dsh.h)
 SGN = {SIGINT: "int", SIGTSTP: "tstp"}
 
 TRUSTED = ["Lean 4.33 kernel", "axioms: propext, Classical.choice, Quot.sound at most (audited per theorem)",
            "hand-written LTS Dsh/Signals.lean tied to dsh.c by trace acceptance (same `step` in theorems and acceptor)",
            "harness/sched/* (scheduler, wrappers incl. sigwait/raise/exit, stub transport below the real rcmd.c), "
-           "vlib/sched.py, vlib/sigcheck.py, gcc, ASan/UBSan"]
+           "vlib/sched.py, vlib/sigcheck.py, vlib/sigphase.py, harness/sigthread_harness.c + vlib/sigthread.py (gated "
+           "transport, settable clock, kill(2)), harness/execsig_harness.c, gcc, ASan/UBSan"]
 
 
 # ---------------------------------------------------------------------------- trace in order
@@ -52,8 +54,8 @@ def sig_event(ev, sform="pinned"):
                 return ["G", ev[1] + "T"]
             if ev[1] == "sleep":
                 return ["G", "wake"]
-            if ev[1] in ("cancelled", "end", "time"):
-                return None
+            if ev[1] in ("cancelled", "end", "time", "kill"):
+                return None             # (kill: checked by `obs gkill`, see project_sig)
     if len(ev) < 2:
         return None
     ev = list(ev) + ["", "", ""]
@@ -81,8 +83,8 @@ def sig_event(ev, sform="pinned"):
     if th.startswith("W"):
         if e in ("lock", "unlock") and a == "tc":
             return [th, e]
-        if e == "signal" and a == "tc":
-            return [th, "signal"]
+        if e in ("signal", "broadcast") and a == "tc":
+            return [th, "signal"]       # the dispatcher is the only waiter on threadcount_cond: the two are the same
         if e == "connectEnd":
             try:
                 return [th, "connectEnd", "1" if int(ev[3]) >= 0 else "0"]
@@ -90,6 +92,8 @@ def sig_event(ev, sform="pinned"):
                 return [th, "connectEnd", "?"]
         if e in ("connectBegin", "destroyBegin", "destroyEnd"):
             return [th, e]
+        if e == "fwd" and a == th[1:] and ev[3] == "15":
+            return None                 # the worker ends its own command after a time-out (SIGTERM): not a protocol step
         if e in ("fwd", "wait", "kill"):
             return [th, e, a]
         return None
@@ -153,11 +157,20 @@ def project_sig(res, variant, wform="blind", sform="pinned"):
     stage = {}            # worker -> conn (connected) updT (in _update_connect_state) updL (updated) body res
     polled = {}
     zlist, zcanc, fwds = [], None, []
+    zopen = [False]       # Z took thd_mutex for the signal it is handling and `obs list` was not sent yet
+
+    def flush_list():
+        # what the listing named is compared when the signals thread is done with the signal (before its next sigwait,
+        # its end, the end of the run) - not at the unlock: the lines may be printed from a snapshot after the unlock
+        if zopen[0]:
+            L.append("obs list " + (",".join(map(str, zlist)) or "-"))
+            zopen[0] = False
     evs = ordered(res)
     for pos, (kind, s, ev) in enumerate(evs):
         th = ev[0]
         if th == "Z" and len(ev) > 1 and ev[1] == "cancelled":
             # the deferred cancellation takes effect: the signals thread has come back to sigwait
+            flush_list()
             L.append("ev Z die")
             continue
         if th.startswith("W") and len(ev) > 1 and ev[1] in ("poll", "read"):
@@ -171,15 +184,29 @@ def project_sig(res, variant, wform="blind", sform="pinned"):
                 mm = CANC_RE.search(tx)
                 if mm:
                     zcanc = int(mm.group(1))
+        if len(ev) > 2 and ev[1] == "fputs" and ev[2] in ("1", "2") and (th == "Z" or (th.startswith("W") and th[1:].isdigit())) \
+                and (not L or L[-1] != "obs emit " + th):
+            L.append("obs emit " + th)          # who is inside a stdio call where (product model Dsh/SignalsOutput.lean)
         fe = sig_event(ev, sform)
         if fe is None and th.startswith("W") and len(ev) > 1 and ev[1] == "time" and stage.get(th) == "updT":
             fe = [th, "time"]       # the time() call inside _update_connect_state (precedes the state update)
+        if th == "G" and len(ev) > 1 and ev[1] == "kill" and sform == "stopwdog":
+            L.append("obs gkill")
         if fe is None:
             continue
         if fe[0].startswith("W") and fe[1] == "lockT" and stage.get(fe[0]) == "body":
+            # the read loop was given up (time-out, read error): the result written under thd_mutex is DSH_FAILED
+            nts = next_ts(evs, pos)
+            w = int(fe[0][1:])
+            gave_up = bool(nts and nts != "-" and w < len(nts) and nts[w] == "4")
             if opts.get("pers") != "pcp":       # a copy (stub pcp_client) does not poll: the path is not observable
-                L.append("obs path %s %s" % (fe[0][1:], "reading" if polled.get(fe[0]) else "closing"))
+                # (a loop given up at its top, before the first poll, was entered all the same: a canceled host is DONE)
+                L.append("obs path %s %s" % (fe[0][1:], "reading" if polled.get(fe[0]) or gave_up else "closing"))
             stage[fe[0]] = "res"
+            if gave_up:
+                fe = [fe[0], "lockTF"]
+        if fe[0] == "Z" and fe[1] == "sigwait":
+            flush_list()
         if kind == "E" and s is not None:
             L.append("st %s %s %s %s %s" % (s["tc"], keep_names(s["R"]), keep_names(s["P"]), keep_names(s["X"]),
                                             s.get("ts", "-")))
@@ -188,6 +215,7 @@ def project_sig(res, variant, wform="blind", sform="pinned"):
             # pthread_cancel is deferred.  The signals thread is in sigwait (a cancellation point): it ends at once.
             # Otherwise it is in the middle of a handler and runs on until it comes back to sigwait (`Z cancelled`);
             # the model has both (St.scan, SAct.die) and the whole tail is validated against it
+            flush_list()
             L.append("ev Z die")
         if fe[0].startswith("W"):
             st = stage.get(fe[0])
@@ -202,15 +230,15 @@ def project_sig(res, variant, wform="blind", sform="pinned"):
                 polled[fe[0]] = False
         elif fe[0] == "Z":
             if fe[1] == "lockT":
-                zlist = []
-            elif fe[1] == "unlockT":
-                L.append("obs list " + (",".join(map(str, zlist)) or "-"))
+                del zlist[:]
+                zopen[0] = True
             elif fe[1] == "lock":
                 zcanc = None
             elif fe[1] == "unlock":
                 L.append("obs canc %s" % ("?" if zcanc is None else zcanc))
             elif fe[1] == "fwd":
                 fwds.append(fe[2])
+    flush_list()
     L.append("obs fwds " + (",".join(fwds) or "-"))
     status = m.get("status", "crash")
     if status == "deadlock" and res.get("last_S"):
@@ -222,6 +250,14 @@ def project_sig(res, variant, wform="blind", sform="pinned"):
     else:
         L.append("end " + status)
     return L
+
+
+def next_ts(evs, pos):
+    """t[i].state digits of the first state line after evs[pos] (the state the step leads to), or None"""
+    for kind, s, ev in evs[pos + 1:]:
+        if kind == "E" and s is not None:
+            return s.get("ts")
+    return None
 
 
 def cancel_deferred(evs, pos):
@@ -338,7 +374,7 @@ def analyse(res):
     keys = ("create", "rcmd_lock", "cbegin", "cend", "upd_lock", "upd_unlock", "res_lock", "dbegin", "dend", "eof")
     H = [dict((k, None) for k in keys) for _ in range(n)]
     for h in H:
-        h.update(cend_ok=None, polled=False, out=b"", err=b"", fwd=[])
+        h.update(cend_ok=None, polled=False, out=b"", err=b"", fwd=[], timedout=False)
     clock = case.get("clock0", 1000000)
     episodes, delivers = [], []
     pending = {}
@@ -361,6 +397,8 @@ def analyse(res):
                 delivers.append({"pos": pos, "sig": sg, "clock": clock, "dup": pending.get(sg, 0) > 0})
                 pending[sg] = pending.get(sg, 0) + 1
             continue
+        if th == "G" and e == "kill" and a.startswith("W") and a[1:].isdigit() and int(a[1:]) < n:
+            H[int(a[1:])]["timedout"] = True       # the watchdog interrupts the worker: connect / command time-out
         if th == "D":
             if e == "create" and a.startswith("W"):
                 H[int(a[1:])]["create"] = pos
@@ -398,6 +436,8 @@ def analyse(res):
                     h["out"] += b
                 elif a == "2":
                     h["err"] += b
+                    if b"timeout" in b:
+                        h["timedout"] = True    # noticed by the worker itself at the top of its poll loop
             elif e == "exit":
                 other_exit = (th, a)
             continue
@@ -530,7 +570,12 @@ def offenders(res, base):
                 a1, l1 = last_report
                 d2 = ep["times"][0] if ep["times"] else ep["clock_at"]
                 a2 = ep["arrival"] if ep["arrival"] is not None else ep["clock_at"]
-                kind = "abort" if d2 == a1 else "report" if a2 - l1 >= 2 else "either"
+                # the first arrived at a1 and was recorded at l1 >= a1; the second arrived at a2 and is decided at
+                # d2 >= a2.  Decided within one second of the first's ARRIVAL: it arrived within one second, and any
+                # recorded time is at least as late, so both the text and every faithful implementation abort; arrived
+                # two or more seconds after the first was RECORDED: not within one second by any reading; in between,
+                # the latency of the handlers decides
+                kind = "abort" if d2 - a1 <= WINDOW else "report" if a2 - l1 >= WINDOW + 1 else "either"
         elif ep["sig"] == SIGTSTP:
             if last_report is None:
                 kind = "stop"
@@ -538,7 +583,7 @@ def offenders(res, base):
                 a1, l1 = last_report
                 d2 = ep["times"][0] if ep["times"] else ep["clock_at"]
                 a2 = ep["arrival"] if ep["arrival"] is not None else ep["clock_at"]
-                kind = "cancel" if d2 == a1 else "stop" if a2 - l1 >= 2 else "either"
+                kind = "cancel" if d2 - a1 <= WINDOW else "stop" if a2 - l1 >= WINDOW + 1 else "either"
         did_fwd = bool(ep["fwd"])
         did_cancel = ep["tcwin"] is not None
         facts["episodes"].append({"sig": ep["sig"], "kind": kind, "exit": ep["exit"], "fwd": len(ep["fwd"]),
@@ -668,9 +713,10 @@ def offenders(res, base):
                     out.append(("not-started", "host %d was not canceled and never had its command started" % i))
                 elif h["cbegin"] is not None and h["dend"] is None:
                     out.append(("not-torn-down", "dsh() returned before host %d was torn down" % i))
-                elif want is not None and ran and got != want:
+                elif want is not None and ran and got != want and not (h["timedout"] and want.startswith(got)):
+                    # (a host pdsh gave up on after a time-out did not complete: what it printed before is relayed)
                     out.append(("output-corrupted", "host %d completed with output %r instead of %r" % (i, got[:80], want[:80])))
-                elif want is not None and h["cbegin"] is not None and not ran and i not in marked_any:
+                elif want is not None and h["cbegin"] is not None and not ran and i not in marked_any and not h["timedout"]:
                     out.append(("output-missing", "host %d was not canceled but its output was not relayed" % i))
             elif got:
                 out.append(("canceled-host-output", "host %d was canceled while connecting but relayed %r" % (i, got[:60])))
